@@ -26,7 +26,7 @@ from .. import configfacts as CF
 from .. import inline
 from ..facts import UNKNOWN, call_name, dotted, norm
 from ..linters import ABSTRACT_BASES, Linters
-from ..util import exc_ancestors, func_paths, handler_names, handlers_covering, is_caught
+from ..util import exc_ancestors, func_paths, handler_names, handlers_covering, is_call_named, is_caught
 
 # rule -> (doc pages, normalised candidate section names).  Names are re-discovered from the docs/template on every
 # run; this table only says which names belong to which rule class.
@@ -174,7 +174,8 @@ def check(run, ctx):
     # ----------------------------------------------------------------- K6
     K6 = run.rule("K6", "config ValueError reaches exit 2: re-raised by _safe_check_rule before its generic handler; not swallowed between from_dict and _safe_check_rule; not swallowed by the parallel worker", floor=15,
                   decides="a documented-invalid value ends the run with exit code 2")
-    scr = repo.func(f"{ORCH}.Orchestrator._safe_check_rule")
+    scr = repo.func_by_role(f"{ORCH}.Orchestrator._safe_check_rule", "the Orchestrator method that calls rule.check(context) under its try/except",
+                            lambda g: any(isinstance(n, ast.Try) for n in ast.walk(g.node)) and any(is_call_named(n, "check") for n in ast.walk(g.node)))
     tr = next((n for n in ast.walk(scr.node) if isinstance(n, ast.Try)), None)
     run.require(tr is not None, "_safe_check_rule has no try")
     first = tr.handlers[0] if tr.handlers else None
@@ -262,6 +263,40 @@ def check(run, ctx):
             run.finding(K11, sym, f"memoised:{rec['store']}", f"{rec['func'].qual} caches the parsed configuration on the rule instance ({rec['store']}) without keying it by the file's language: the first file's language decides the per-language thresholds of every later file", rec["func"].loc)
         else:
             run.ok(K11, sym, "no instance-level memoisation")
+
+    K14 = run.rule("K14", "every key from_dict reads from the per-language mapping falls back to the value of the same key at section level", floor=4,
+                   decides="adding a `<language>:` sub-section changes only the keys it names: the section's other settings (ignore lists, switches) stay in effect for that language")
+    for cq, c in sorted(repo.classes.items()):
+        if not (cq.startswith("src.linters.") and c.name.endswith("Config") and "from_dict" in c.methods):
+            continue
+        fd_ = c.methods["from_dict"]
+        cpar_ = fd_.node.args.args[1].arg if len(fd_.node.args.args) > 1 else "config"
+        flat_ = list(inline.flat_nodes(repo, fd_))
+        lang_maps = {t.id for n in flat_ if isinstance(n, ast.Assign) for t in n.targets if isinstance(t, ast.Name)
+                     and any(isinstance(x, ast.Name) and x.id in ("language", "lang") for x in ast.walk(n.value)) and any(isinstance(x, ast.Name) and x.id == cpar_ for x in ast.walk(n.value))}
+        if not lang_maps:
+            continue
+        sect_defs = {t.id: n.value for n in flat_ if isinstance(n, ast.Assign) for t in n.targets if isinstance(t, ast.Name)}
+        def reads_section(e, key, depth=2):
+            for x in ast.walk(e):
+                if isinstance(x, ast.Call) and call_name(x) == "get" and isinstance(x.func.value, ast.Name) and x.func.value.id == cpar_ and x.args and repo.fold(fd_.module, x.args[0], c) == key:
+                    return True
+                if isinstance(x, ast.Subscript) and isinstance(x.value, ast.Name) and x.value.id == cpar_ and repo.fold(fd_.module, x.slice, c) == key:
+                    return True
+                if depth > 0 and isinstance(x, ast.Name) and x.id in sect_defs and x.id not in lang_maps and reads_section(sect_defs[x.id], key, depth - 1):
+                    return True
+            return False
+        for n in flat_:
+            if isinstance(n, ast.Call) and call_name(n) == "get" and isinstance(n.func, ast.Attribute) and isinstance(n.func.value, ast.Name) and n.func.value.id in lang_maps and n.args:
+                key = repo.fold(fd_.module, n.args[0], c)
+                if not isinstance(key, str):
+                    continue
+                dflt = n.args[1] if len(n.args) > 1 else None
+                sym = f"{c.name}[{key}]"
+                if dflt is not None and reads_section(dflt, key):
+                    run.ok(K14, sym, "language level first, section level as fallback")
+                else:
+                    run.finding(K14, sym, f"no-section-fallback:{norm(n)[:60]}", f"{c.name}.from_dict reads {key!r} from the per-language mapping with `{norm(n)[:70]}` and no fallback to the section's own {key!r}: as soon as a `<language>:` sub-section exists, the section-level value of {key!r} is ignored for that language", f"{fd_.module.rel}:{n.lineno}")
 
     K12 = run.rule("K12", "from_dict does not use `mapping.get(key) or fallback`: a configured falsy value (false, 0, []) must not fall through to the fallback", floor=14,
                    decides="`enabled: false`, `allow_in_scripts: false`, empty lists and zero thresholds set by the user take effect, also inside language overrides")
